@@ -37,6 +37,23 @@ Definition file_perm (f f' : file) : Prop :=
 Definition store_perm (st st' : store) : Prop :=
   Forall2 (fun a b : key * file => fst a = fst b /\ file_perm (snd a) (snd b)) st st'.
 
+(** ... more generally: the same path strings with the same names in any order (positions may
+    differ), the lines themselves in any order and multiplicity *)
+Definition imp_equiv (i i' : import) : Prop :=
+  ipath i = ipath i' /\
+  match itargets i, itargets i' with
+  | Wildcard, Wildcard => True
+  | Specific a, Specific b => Permutation (map fst a) (map fst b)
+  | _, _ => False
+  end.
+Definition imps_equiv (l l' : list import) : Prop :=
+  (forall i, In i l -> exists i', In i' l' /\ imp_equiv i i')
+  /\ (forall i', In i' l' -> exists i, In i l /\ imp_equiv i i').
+Definition file_equiv (f f' : file) : Prop :=
+  fdefs f = fdefs f' /\ imps_equiv (fimports f) (fimports f').
+Definition store_equiv (st st' : store) : Prop :=
+  Forall2 (fun a b : key * file => fst a = fst b /\ file_equiv (snd a) (snd b)) st st'.
+
 Section Spec.
   Variable st : store.
 
@@ -175,6 +192,18 @@ Section Spec.
     && forallb (fun l => nodup_strs (target_names (snd l))) ls.
 End Spec.
 
+(** * The guards at [ks := reach_b]: they speak about reachable lines only *)
+Definition guard_exact (st : store) (root_path : key) (root : file) : bool :=
+  let ks := reach_b st root_path root in
+  distinct_b st root ks
+  && agree_b st (all_lines st root_path root ks)
+  && rootsep_b st root (all_lines st root_path root ks).
+
+Definition guard_names (st : store) (root_path : key) (root : file) : bool :=
+  let ks := reach_b st root_path root in
+  names_guard_b st ks (all_lines st root_path root ks).
+
+
 (** * The property at full strength (no guard) — refuted for the current code, see
       [C13_exact_full_refuted] etc.; the theorems that do hold carry explicit computable guards. *)
 Definition imports_exact_full : Prop :=
@@ -219,3 +248,35 @@ Definition target_ids (ts : list target) : list (str * pos) :=
   flat_map (fun t => match t with TName n q => [(n, q)] | TWild => [] end) ts.
 Definition no_wild (ts : list target) : bool :=
   forallb (fun t => match t with TWild => false | _ => true end) ts.
+
+(** * The same closure read directly on the parsed documents (raw [#import] lines, before any
+      merging) — the form in which the property text states it *)
+Definition docs := list (key * list item).
+Fixpoint doc_lookup (ds : docs) (k : key) : option (list item) :=
+  match ds with
+  | [] => None
+  | (k', its) :: r => if key_eqb k' k then Some its else doc_lookup r k
+  end.
+Definition target_matches (d : def) (t : target) : bool :=
+  match t with TWild => true | TName n _ => str_eqb n (def_name d) end.
+Definition raw_wanted (its : list item) (ts : list target) : list def :=
+  filter (fun d => def_is_frag d && existsb (target_matches d) ts) (item_defs its).
+
+(** [RLraw ds doc items k ts]: a raw import line with targets [ts], reachable from the document
+    [(doc, items)], points at [k] *)
+Inductive RLraw (ds : docs) (doc : key) (items : list item) : key -> list target -> Prop :=
+| RLraw_root p ts path pp :
+    In (IImport p ts path pp) items -> RLraw ds doc items (resolve doc (components path)) ts
+| RLraw_step k ts its p ts' path pp :
+    RLraw ds doc items k ts -> doc_lookup ds k = Some its -> In (IImport p ts' path pp) its ->
+    RLraw ds doc items (resolve k (components path)) ts'.
+
+Definition RawClosure (ds : docs) (root_path : key) (root : list item) (d : def) : Prop :=
+  In d (item_defs root) \/
+  exists k ts its, RLraw ds root_path root k ts /\ doc_lookup ds k = Some its /\ In d (raw_wanted its ts).
+
+(** the store the resolvers work on: every document through [resolve_extensions] *)
+Definition StoreOf (ds : docs) (st : store) : Prop :=
+  Forall2 (fun (a : key * list item) (b : key * file) =>
+             fst a = fst b /\ resolve_extensions (snd a) = inr (snd b)) ds st.
+
